@@ -530,7 +530,46 @@ func c13BigCases(depth, nm int) []c13BigCase {
 	return out
 }
 
+type c13ManyCase struct {
+	ManyAttaches int `json:"many_attaches"`
+}
+
+func c13ManyRun(n int) (sig, what string) {
+	w := c13New(3)
+	for i := 0; i < n; i++ {
+		cell := uint32(i%7) * 16
+		if err := w.b.Attach(w.mems[i%3], "m", 0x123400+cell, 0x123400+cell+15+uint32(i%2)*16); err != nil {
+			return "unexplained:attach-result", fmt.Sprintf("aligned Attach #%d rejected: %v", i, err)
+		}
+	}
+	owner := map[uint32]int{}
+	for i := 0; i < n; i++ {
+		cell := uint32(i%7) * 16
+		for c := uint32(0); c <= uint32(i%2); c++ {
+			owner[0x123400+cell+c*16] = i%3 + 1
+		}
+	}
+	for base, own := range owner {
+		for _, a := range []uint32{base, base + 15} {
+			w.log = w.log[:0]
+			v, p := c13SafeRead(w, a)
+			if p || len(w.log) != 1 || w.log[0] != (c13Access{own, a, false, 0}) || v != c13Val(own, a) {
+				return "unexplained:read-misrouted", fmt.Sprintf("after %d Attach calls on one bus, the read of $%06x should reach memory %d (the last one attached there); panicked=%v, memories saw %v", n, a, own, p, w.log)
+			}
+		}
+	}
+	return "", ""
+}
+
 func replayC13(raw json.RawMessage) (string, error) {
+	var many c13ManyCase
+	if json.Unmarshal(raw, &many) == nil && many.ManyAttaches > 0 {
+		sig, what := c13ManyRun(many.ManyAttaches)
+		if sig == "" {
+			return "routing after very many Attach calls is that of the last Attach over each cell", nil
+		}
+		return what, fmt.Errorf("%s", sig)
+	}
 	var rc c13RealCase
 	if json.Unmarshal(raw, &rc) == nil && (rc.RealBase != 0 || bytes.Contains(raw, []byte("real_base"))) {
 		sig, what := c13RealRun(rc)
@@ -706,6 +745,12 @@ func runC13(r *report.Run) {
 	})
 	states += int64(len(big))
 	transitions += nbig
+	// a bus that has been through very many Attach calls (more than 2^16): routing is still that of the last
+	// Attach over each address
+	transitions += 70000
+	if sig, what := c13ManyRun(70000); sig != "" {
+		r.Violation(sig, what, c13ManyCase{ManyAttaches: 70000})
+	}
 	// the library's own RAM/ROM types behind the bus
 	for _, base := range []uint32{0x000000, 0x000010, 0x7DFFA0, 0x7DFFC0, 0x7DFFE0, 0x7E0000, 0xFFFF80} { // incl. each object straddling a bank edge
 		rc := c13RealCase{RealBase: base}
@@ -730,7 +775,7 @@ func runC13(r *report.Run) {
 	r.Set("traces_validated_against_impl", transitions)
 	r.Set("evaluations", evals)
 	r.Set("distinct_nontrivial", states)
-	r.Set("rule", "BFS to fixpoint over routing states (owner of each 16-byte window segment) for each window position; every transition is a real Attach on a fresh real Bus reached by replaying the shortest path; in every state every byte address of window+guards is read and written (the instrumented memories make a bus read of their own at another attached address while serving each access), EaRead24_wrap is called from every window address (and across the bank wrap in the large-range scenarios) and EaDump is called for every start<=end; evaluations counts those per-state calls. The library's own memory.RAM and memory.ROM objects (which subtract their offset from the full address) are attached side by side and overlapping at seven bases (each object once across a bank edge) and every address is read, written and dumped against a plain owner map. The second bus implementation, cpualt.Bus, has no Attach result, alignment rule or EaDump and treats unattached cells as open bus, so only the routing clause applies to it: BFS to a fixpoint over (reader owner, writer owner) per window cell through real AttachReader/AttachWriter calls, every address probed through Read8/16/24, Write8/16/24, EaRead, EaWrite with logging closures (each byte must reach the most recently attached closure of its own cell with the full address)")
+	r.Set("rule", "BFS to fixpoint over routing states (owner of each 16-byte window segment) for each window position; every transition is a real Attach on a fresh real Bus reached by replaying the shortest path; in every state every byte address of window+guards is read and written (the instrumented memories make a bus read of their own at another attached address while serving each access), EaRead24_wrap is called from every window address (and across the bank wrap in the large-range scenarios) and EaDump is called for every start<=end; evaluations counts those per-state calls. One bus is put through 70000 Attach calls and must still route to the last memory attached over each cell. The library's own memory.RAM and memory.ROM objects (which subtract their offset from the full address) are attached side by side and overlapping at seven bases (each object once across a bank edge) and every address is read, written and dumped against a plain owner map. The second bus implementation, cpualt.Bus, has no Attach result, alignment rule or EaDump and treats unattached cells as open bus, so only the routing clause applies to it: BFS to a fixpoint over (reader owner, writer owner) per window cell through real AttachReader/AttachWriter calls, every address probed through Read8/16/24, Write8/16/24, EaRead, EaWrite with logging closures (each byte must reach the most recently attached closure of its own cell with the full address)")
 	r.Set("bounds", map[string]interface{}{"window_segments": segs, "memories": nm, "window_bases": bases, "fixpoint": true})
 	r.Set("exhaustive", true)
 	r.Sample(c13Case{Base: 0x10, Segs: segs, Mems: nm, Path: []c13Attach{{1, 0x10, 0x4F}, {2, 0x20, 0x2F}}, Probe: "dump 000018 00002f"})
